@@ -116,4 +116,104 @@ def endBlockOld (e : Engine) (b : BlockId) : Engine × Option (Nat × SH) :=
 def finalize (e : Engine) (b : BlockId) : Engine :=
   ⟨e.blocks.filter (fun kv => decide (b.1 ≤ kv.1.slot))⟩
 
+/-! ### Feeding the engine -/
+
+/-- the four calls of the `ExecutionEngine` trait -/
+inductive Op where
+  | begin (id : Ipb) (parent : Option BlockId)
+  | exec (id : Ipb) (txs : List Nat)
+  | endB (b : BlockId)
+  | fin (b : BlockId)
+deriving DecidableEq, Repr
+
+/-- an emitted `ExecutionEvent::BlockExecuted { block_id, result: Ok { tx_count, state_commitment } }` -/
+abbrev Event := BlockId × Nat × SH
+
+def stepOp (e : Engine) : Op → Engine × Option Event
+  | .begin id parent => (begin e id parent, none)
+  | .exec id txs => (exec e id txs, none)
+  | .endB b => ((endBlock e b).1, (endBlock e b).2.map (fun r => (b, r.1, r.2)))
+  | .fin b => (finalize e b, none)
+
+/-- runs a call sequence from a fresh engine; events in emission order -/
+def runFrom (e : Engine) : List Op → Engine × List Event
+  | [] => (e, [])
+  | op :: rest =>
+    let r := stepOp e op
+    let q := runFrom r.1 rest
+    (q.1, (match r.2 with | some ev => [ev] | none => []) ++ q.2)
+
+def run (ops : List Op) : Engine × List Event := runFrom {} ops
+
+/-! ### Specification engine
+
+What the property says the engine computes, with nothing folded yet: per key the *seed* chosen when
+the block began and the complete transaction sequence streamed since. The reported commitment is
+by definition `txs.foldl step seed`, the seed rule is `specSeed`. `Proofs.Exec` shows the engine
+refines it. -/
+
+structure GBlock where
+  seed : SH
+  txs : List Nat
+  completedAs : Option Nat
+deriving DecidableEq, Repr, Inhabited
+
+/-- the commitment of a block state: the seed folded over the whole transaction sequence -/
+def GBlock.commitment (g : GBlock) : SH := g.txs.foldl SH.step g.seed
+
+def GBlock.abs (g : GBlock) : BlockExec := ⟨g.txs.length, g.commitment, g.completedAs⟩
+
+abbrev GBlocks := List (Ipb × GBlock)
+
+def glookup : GBlocks → Ipb → Option GBlock
+  | [], _ => none
+  | (k, v) :: rest, key => if k = key then some v else glookup rest key
+
+def ginsert : GBlocks → Ipb → GBlock → GBlocks
+  | [], key, v => [(key, v)]
+  | (k, w) :: rest, key, v => if k = key then (k, v) :: rest else (k, w) :: ginsert rest key v
+
+def gcompletedAs (ph : Nat) (o : Option GBlock) : Option GBlock :=
+  match o with
+  | some g => if g.completedAs = some ph then some g else none
+  | none => none
+
+/-- seed rule of the property: the commitment of the parent if a state was *completed under exactly
+    the parent's id* (`Known(parent)` before `Pending(parent slot)`), otherwise the parent block
+    hash (genesis when there is no parent). -/
+def specSeed (g : GBlocks) (parent : Option BlockId) : SH :=
+  match parent with
+  | none => .block 0
+  | some (ps, ph) =>
+    match gcompletedAs ph (glookup g (.known ps ph)) with
+    | some p => p.commitment
+    | none =>
+      match gcompletedAs ph (glookup g (.pending ps)) with
+      | some p => p.commitment
+      | none => .block ph
+
+def gendKey (g : GBlocks) (b : BlockId) : Ipb :=
+  if (glookup g (.known b.1 b.2)).isSome then .known b.1 b.2 else .pending b.1
+
+def gstepOp (g : GBlocks) : Op → GBlocks × Option Event
+  | .begin id parent => (ginsert g id ⟨specSeed g parent, [], none⟩, none)
+  | .exec id txs =>
+    (match glookup g id with
+     | none => g
+     | some b => ginsert g id { b with txs := b.txs ++ txs }, none)
+  | .endB b =>
+    match glookup g (gendKey g b) with
+    | none => (g, none)
+    | some x => (ginsert g (gendKey g b) { x with completedAs := some b.2 }, some (b, x.txs.length, x.commitment))
+  | .fin b => (g.filter (fun kv => decide (b.1 ≤ kv.1.slot)), none)
+
+def grunFrom (g : GBlocks) : List Op → GBlocks × List Event
+  | [] => (g, [])
+  | op :: rest =>
+    let r := gstepOp g op
+    let q := grunFrom r.1 rest
+    (q.1, (match r.2 with | some ev => [ev] | none => []) ++ q.2)
+
+def grun (ops : List Op) : GBlocks × List Event := grunFrom [] ops
+
 end AgModel.Exec
